@@ -779,7 +779,7 @@ class PacketTooBig (icmp_base):
     if buf_len is None: buf_len = len(raw)
 
     try:
-      o.mtu = struct.unpack_from("!I", raw, offset)
+      o.mtu = struct.unpack_from("!I", raw, offset)[0]
       offset += 4
 
       o.next = raw[offset:buf_len]
